@@ -117,9 +117,12 @@ def large_cases():
     thresholds (8, 16, 32, 64, 256, 1024, one 4 KiB page), names longer than a
     few characters, page-sized and sparse addresses, long AuxData tables with
     negative values, a byte vector ending in whole pages of zero bytes."""
+    return [large_cases_for(n) for n in (9, 17, 33, 70)]
+
+
+def large_cases_for(n):
     U = irgen.U
-    out = []
-    for n in (9, 17, 33, 70):
+    if True:
         blocks = []
         for i in range(n):
             blocks.append(irgen.mk_block(
@@ -174,8 +177,7 @@ def large_cases():
                                            [U(2000 + i) for i in range(n)]),
                               "nodeset": ("set<UUID>", frozenset(
                                   U(1000 + i) for i in range(n)))})
-        out.append(("large/n=%d" % n, ir))
-    return out
+        return ("large/n=%d" % n, ir)
 
 
 def reader_cases(tier):
